@@ -157,6 +157,10 @@ func (s *V2Session) buildAndSend(ctx context.Context, c ipmi.Command) error {
 		Sequence:      1, // used at the session level
 	}
 
+	// responses are decoded into the same layers, so a retry must start from
+	// the request's values again rather than whatever the last response held
+	rmcpLayer, v2SessionLayer, messageLayer := s.rmcpLayer, s.v2SessionLayer, s.messageLayer
+
 	firstAttempt := true
 	terminalErr := error(nil)
 	retryable := func() error {
@@ -164,6 +168,7 @@ func (s *V2Session) buildAndSend(ctx context.Context, c ipmi.Command) error {
 			firstAttempt = false
 		} else {
 			commandRetries.Inc()
+			s.rmcpLayer, s.v2SessionLayer, s.messageLayer = rmcpLayer, v2SessionLayer, messageLayer
 		}
 
 		// TODO handle AuthenticationAlgorithmNone properly
